@@ -332,7 +332,7 @@ func one(cfg Config) *Result {
 						mu.Lock()
 						n := bugNo[id]
 						mu.Unlock()
-						switch r.n(4) {
+						switch r.n(6) {
 						case 0, 1:
 							_, op, err := b.AddComment(fmt.Sprintf("comment g%d k%d", g, k))
 							if err != nil && op != nil {
@@ -373,6 +373,27 @@ func one(cfg Config) *Result {
 							ack(g, n, op.Id())
 						case 3:
 							_ = b.Snapshot()
+						case 4:
+							// three labels for everybody: the first to add one wins, the others are rightly refused (nothing changes)
+							_, op, err := b.ChangeLabels([]string{[]string{"l1", "l2", "l3"}[r.n(3)]}, nil)
+							if err != nil {
+								if op != nil {
+									maybe(g, n, op.Id())
+								}
+								continue
+							}
+							if err = b.Commit(); err != nil {
+								maybe(g, n, op.Id())
+								fail(g, "ChangeLabels+Commit", err)
+								continue
+							}
+							ack(g, n, op.Id())
+						case 5:
+							// a refused edit leaves the bug as usable as before
+							if op, err := b.SetTitle("   "); err == nil {
+								maybe(g, n, op.Id())
+								fail(g, "SetTitle", fmt.Errorf("an empty title was accepted"))
+							}
 						}
 					}
 				}
